@@ -307,6 +307,9 @@ def r3_necessary_variables(repo: Repo, rep):
                                        or (isinstance(v, ast.Call) and attr_chain(v.func) == "set" and len(v.args) == 1 and isinstance(v.args[0], (ast.GeneratorExp, ast.ListComp))
                                            and dump(v.args[0].generators[0].iter) == va))
             rep.check(R, fresh, snv.site(), snv.fq, "set_necessary_variables starts from a fresh set()", dump(v), dump(v))
+            srcs = sorted({n.attr for n in ast.walk(snv.node) if isinstance(n, ast.Attribute) and n.attr in ("necessary_args", "args", "defaults", "optional_args")})
+            rep.check(R, srcs == ["necessary_args"], snv.site(), snv.fq, "the declared free variables are the shape functions' necessary_args (arguments without a bound value)",
+                      f"collected from {srcs}", f"collected from {srcs}")
             rep.check(R, p.ret is None, snv.site(), snv.fq, "set_necessary_variables returns nothing (its result must not be assigned)", dump(p.ret), dump(p.ret))
 
 
@@ -382,7 +385,34 @@ def r5_point_data(repo: Repo, rep):
         rep.check(R, norm(got) == norm([X, Y, Z0, Z1]), fi.site(), fi.fq, f"data given in the order {order}: coordinates (x, y, z0, z1) of the space (x, y, z)", str(norm(got)), f"{order}: {norm(got)}")
 
 
+def r6_derived_functions(repo: Repo, rep):
+    R = rep.rule("R-C17-6", "a shape function class that post-processes the wrapped value in __call__ (angle -> rotation matrix) re-wraps the partially evaluated function in its own class", floor=1,
+                 why="the parent's partial evaluation returns the wrapped function's raw value once every argument is bound: the evaluated domain would receive an angle where it expects a matrix")
+    duf = repo.cls("utils.user_fun.DomainUserFunction")
+    n = 0
+    for ci in repo.subclasses(duf, strict=True):
+        call = ci.methods.get("__call__")
+        if call is None:
+            continue
+        n += 1
+        rep.saw(call)
+        pe = ci.methods.get("partially_evaluate")
+        if pe is None:
+            rep.violation(R, call.site(), ci.fq, "partially_evaluate is overridden together with __call__", "inherited: returns the raw wrapped value", "partially_evaluate inherited")
+            continue
+        rep.saw(pe)
+        for p in paths(pe.node):
+            if p.ret is RAISE or p.ret is None:
+                continue
+            r = p.ret
+            ok = isinstance(r, ast.Call) and attr_chain(r.func) in (ci.name, "type(self)", "self.__class__") and r.args and "super().partially_evaluate(" in dump(r.args[0])
+            rep.check(R, ok, pe.site(p.ret_node), pe.fq, f"returns {ci.name}(super().partially_evaluate(**args))", dump(r)[:100], dump(r)[:100])
+    if n == 0:
+        rep.undecided(R, duf.module.relpath, duf.fq, "derived shape-function classes with their own __call__", "none found")
+
+
 def run(repo: Repo, rep):
+    r6_derived_functions(repo, rep)
     r5_point_data(repo, rep)
     r1_roundtrip(repo, rep)
     r2_setters(repo, rep)
